@@ -398,9 +398,17 @@ impl Actor {
 }
 
 pub fn run(config: Config, receiver: Receiver<ActorMessage>) {
+    #[cfg(mainline_verif)]
+    let _verif_guard = crate::verif::ActorGuard::new();
+
     match Actor::new(config) {
         Ok(mut actor) => {
             loop {
+                #[cfg(mainline_verif)]
+                if !crate::verif::actor_turn(&actor) {
+                    break;
+                }
+
                 match receiver.try_recv() {
                     Ok(actor_message) => match actor_message {
                         ActorMessage::Check(sender) => {
